@@ -19,6 +19,11 @@ fn table_upper(u: u16) -> Option<u16> {
         0xe0..=0xf6 | 0xf8..=0xfe => Some(u - 0x20),
         0x100..=0x12f | 0x132..=0x137 | 0x14a..=0x177 => Some(u & !1),
         0x139..=0x148 | 0x179..=0x17e => Some(if u & 1 == 0 { u - 1 } else { u }),
+        // Latin digraphs with a title-case form (DZ-caron, LJ, NJ, DZ): upper, title and lower
+        // form are three case variants of one letter; the simple upper-case mapping of all three
+        // is the upper form in every Unicode version since 1.1
+        0x1c4..=0x1cc => Some(0x1c4 + (u - 0x1c4) / 3 * 3),
+        0x1f1..=0x1f3 => Some(0x1f1),
         0x3b1..=0x3c1 | 0x3c3..=0x3c9 => Some(u - 0x20),
         0x430..=0x44f => Some(u - 0x20),
         0x450..=0x45f => Some(u - 0x50),
@@ -32,6 +37,7 @@ fn in_agreed_cased(u: u16) -> bool {
         0x41..=0x5a | 0x61..=0x7a |
         0xc0..=0xd6 | 0xd8..=0xde | 0xe0..=0xf6 | 0xf8..=0xfe |
         0x100..=0x12f | 0x132..=0x137 | 0x139..=0x148 | 0x14a..=0x177 | 0x179..=0x17e |
+        0x1c4..=0x1cc | 0x1f1..=0x1f3 |
         0x391..=0x3a1 | 0x3a3..=0x3a9 | 0x3b1..=0x3c1 | 0x3c3..=0x3c9 |
         0x400..=0x45f)
 }
@@ -205,7 +211,7 @@ pub fn case_variant(name: &str, rng: &mut Rng) -> String {
 const ASCII_POOL: &[u8] = b"abcdefghijklmnopqrstuvwxyzABCDEFGHIJKLMNOPQRSTUVWXYZ0123456789 _-.~$#@()[]{}+=,;'%&^";
 const AGREED_NONASCII: &[char] = &[
     'é', 'É', 'ö', 'Ö', 'ñ', 'Ñ', 'ā', 'Ā', 'ž', 'Ž', 'ł', 'Ł', 'α', 'Α', 'ω', 'Ω', 'λ', 'Λ', 'б', 'Б', 'я', 'Я', 'ё',
-    'Ё', 'џ', 'Џ',
+    'Ё', 'џ', 'Џ', 'ǅ', 'ǆ', 'Ǆ', 'ǈ', 'ǉ', 'ǋ', 'ǲ', 'ǳ',
 ];
 const CASELESS_POOL: &[char] = &[
     '中', '文', '日', '本', 'あ', 'ア', 'א', 'ב', 'ا', 'ب', '한', '글', '€', '→', '\u{ff61}', '\u{e000}', '\u{fffd}',
@@ -214,7 +220,7 @@ const CASELESS_POOL: &[char] = &[
 /// Characters whose case mapping is disputed between Unicode versions / MS-CFB
 /// exceptions / this crate's table.  Generated for robustness, never judged.
 pub const DISPUTED_POOL: &[char] = &[
-    'ß', 'ŉ', 'ǰ', 'ı', 'İ', 'ſ', 'µ', 'ÿ', 'ǅ', 'ǆ', 'ς', 'ΐ', 'ᾀ', 'ﬁ', 'ǈ', '\u{10428}', '\u{10400}', 'ꙁ', 'ⴀ', 'Ⴀ',
+    'ß', 'ŉ', 'ǰ', 'ı', 'İ', 'ſ', 'µ', 'ÿ', 'ς', 'ΐ', 'ᾀ', 'ﬁ', '\u{10428}', '\u{10400}', 'ꙁ', 'ⴀ', 'Ⴀ',
     'ɐ', 'ᵹ', 'ꞔ',
 ];
 
